@@ -58,6 +58,27 @@ class Deviant(object):
         self.osend, self.oqueue = osend, oqueue
         dev = self
 
+        def emit(m, rfb=True, uh=True):
+            """send m; a message with `force_inner` set travels *protected*
+            with that inner content type (TLS 1.3), whatever the library
+            would do with its type"""
+            inner = getattr(m, "force_inner", None)
+            rl = conn._recordLayer
+            if inner is None or not (rl._is_tls13_plus() and rl._writeState
+                                     and rl._writeState.encContext):
+                for r in osend(m, rfb, uh):
+                    yield r
+                return
+            from . import wire
+            try:
+                conn.sock.flush()
+            except Exception:   # noqa
+                pass
+            data = rl._encryptThenSeal(bytearray(m.data) +
+                                       bytearray([inner]), 23)
+            sock = conn.sock.socket
+            sock.link.push(sock.out, wire.record(23, (3, 3), bytes(data)))
+
         def decide(msg):
             if msg.contentType not in dev.count_types:
                 return None
@@ -100,8 +121,8 @@ class Deviant(object):
             dev._busy = True
             try:
                 for m in out:
-                    for r in osend(m, randomizeFirstBlock, update_hashes and
-                                   not getattr(m, "nohash", False)):
+                    for r in emit(m, randomizeFirstBlock, update_hashes and
+                                  not getattr(m, "nohash", False)):
                         yield r
             finally:
                 dev._busy = False
@@ -139,7 +160,7 @@ class Deviant(object):
                         for r in osend(Message(22, bytearray(buf[last:pos])),
                                        True, False):
                             yield r
-                    for r in osend(m):
+                    for r in emit(m):
                         yield r
                     last = pos
                 if buf[last:]:
